@@ -220,7 +220,7 @@ pub fn fuzz_part() -> CustomPart {
                 },
             }
             // 2. campaigns, one thread per target
-            let runs = u64::from(cfg.cases(200_000, 2_000_000));
+            let base_runs = u64::from(cfg.cases(200_000, 2_000_000));
             let seed = (cfg.seed % 0x7fff_fff0) + 1; // libFuzzer treats -seed=0 as "pick a random seed"
             let scratch = nv_engine::scratch::Dir::new("c15fuzz");
             let campaigns: Vec<Campaign> = std::thread::scope(|sc| {
@@ -229,6 +229,8 @@ pub fn fuzz_part() -> CustomPart {
                     .map(|target| {
                         let dir = dir.clone();
                         let base = scratch.path().to_path_buf();
+                        // the structure-aware target is several times slower per execution
+                        let runs = if *target == "roundtrip" { base_runs / 2 } else { base_runs };
                         sc.spawn(move || {
                             let corpus = base.join(format!("corpus-{target}"));
                             let arts = base.join(format!("artifacts-{target}"));
@@ -275,7 +277,32 @@ pub fn fuzz_part() -> CustomPart {
                 hs.into_iter().filter_map(|h| h.join().ok()).collect()
             });
             // 3. interpret
-            let mut violation = None;
+            let mut violation: Option<Violation> = None;
+            // the evolved corpora, once more through the oracle in this binary (and the source of the
+            // non-triviality count: libFuzzer does not report per-input classes)
+            for target in TARGETS {
+                for f in sorted_files(&scratch.path().join(format!("corpus-{target}"))) {
+                    let Ok(data) = std::fs::read(&f) else { continue };
+                    match run_guarded(target, &data) {
+                        Ok(info) => {
+                            stats.label(&format!("{target}:final-corpus-units"));
+                            if nontrivial(&info) {
+                                stats.nontrivial.insert(nv_engine::fnv64(&data) ^ nv_engine::fnv64(target.as_bytes()));
+                                stats.label(&format!("{target}:final-corpus-nontrivial"));
+                            }
+                        },
+                        Err(fl) => {
+                            if findings.is_known(&fl.sig) {
+                                stats.excluded(&fl.sig);
+                            } else if violation.is_none() {
+                                let case = json!({ "target": target, "file": f.display().to_string(), "hex": hex(&data) });
+                                let path = write_replay(cfg, "fuzz", &fl, &case);
+                                violation = Some(Violation { part: "fuzz".into(), sig: fl.sig, msg: fl.msg, replay: path });
+                            }
+                        },
+                    }
+                }
+            }
             let mut per_target = serde_json::Map::new();
             for c in &campaigns {
                 stats.evaluations += c.executed;
@@ -327,7 +354,7 @@ pub fn fuzz_part() -> CustomPart {
                 }
             }
             stats.extra.insert("campaigns".into(), Value::Object(per_target));
-            stats.extra.insert("runs_per_target".into(), json!(runs));
+            stats.extra.insert("runs_per_target".into(), json!({ "lex": base_runs, "stmt": base_runs, "expr": base_runs, "roundtrip": base_runs / 2 }));
             stats.extra.insert("libfuzzer_seed".into(), json!(seed));
             violation
         }),
